@@ -106,12 +106,15 @@ def annotation_names(node: ast.AST, lambdas: bool = True) -> list[str]:
 
 
 def lambda_names(node: ast.AST) -> list[str]:
-    """names the bodies of the lambdas inside `node` read (their own parameters excepted): needed
-    when the lambda is called — module scope, every statement of the module has run"""
+    """names the bodies of the lambdas inside `node` read (their own parameters and the targets of the
+    comprehensions of the body excepted: `lambda :[T.model_validate(v) for v in [...]]`, the list form of
+    pydantic's validating default_factory, binds `v` itself): needed when the lambda is called — module
+    scope, every statement of the module has run"""
     out: list[str] = []
     for n in ast.walk(node):
         if isinstance(n, ast.Lambda):
             params = {a.arg for a in n.args.args + n.args.kwonlyargs + n.args.posonlyargs} | ({n.args.vararg.arg} if n.args.vararg else set()) | ({n.args.kwarg.arg} if n.args.kwarg else set())
+            params |= {t.id for c in ast.walk(n.body) if isinstance(c, ast.comprehension) for t in ast.walk(c.target) if isinstance(t, ast.Name)}
             out += [x for x in names_in(n.body, lambdas=False) if x not in params]
     return out
 
